@@ -70,7 +70,18 @@ def sync(ctx, *args):
     fresh, ok2, kf = SV.run(tid, fs, "/m/final", [], version=V)
     if not ok2:
         return False
-    f = fresh[0]
+    if not _same(cl, fresh[0], kf, V, ctx):
+        return False
+    # a successful `load` as the last request: the client must also agree with a server freshly started on that file
+    last = reqs[-2] if len(reqs) >= 2 else None
+    if isinstance(last, dict) and isinstance(last.get("load"), str) and fs.isfile(last["load"]) and not replies[-2].get("error"):
+        fresh2, ok3, kf2 = SV.run(tid, fs, last["load"], [], version=V)
+        if not ok3 or not _same(cl, fresh2[0], kf2, V, ctx):
+            return False
+    return True
+
+
+def _same(cl, f, kf, V, ctx):
     if V == 1:
         for name, v in f["values"].items():
             s_ = kf.syms.get(name)
